@@ -405,10 +405,13 @@ func main() {
 	// real-time stress first: runners that do not return stay parked and are judged at the very end,
 	// once the generous wall-clock bound has elapsed (the bound only decides when to look, never the verdict)
 	only := os.Getenv("C12_ONLY") // development aid: run one part only (the minimum observation counts then fail the run)
+	partWall := map[string]float64{}
 	part := func(name string, f func()) {
 		if only == "" || only == name {
 			t0 := time.Now()
 			f()
+			partWall[name] += time.Since(t0).Seconds() // bookkeeping only, never an input of an oracle
+			r.Extra("part_wall_s", partWall)
 			if os.Getenv("C12_TIMING") != "" {
 				fmt.Printf("part %s: %.1fs\n", name, time.Since(t0).Seconds())
 			}
